@@ -35,8 +35,11 @@ func excluded(src []byte, g scanx.Result) bool {
 		}
 	}
 	for i, t := range g.Toks {
-		// XGo-only operator characters are not Go lexemes
-		if t.Kind == "ILLEGAL" && (t.Lit == "$" || t.Lit == "?" || t.Lit == "#") {
+		// A character go/scanner calls illegal (NUL, a stray byte, a BOM inside the text, @, \\, and the
+		// XGo-only operator characters $ ? #) is not a Go lexeme: the input is outside the premise
+		// "composed only of Go lexemes". (The two scanners do differ there: after `a/*k*/` an illegal
+		// character keeps the pending semicolon in go/scanner >= 1.20 and drops it in XGo.)
+		if t.Kind == "ILLEGAL" {
 			return true
 		}
 		// 2i0: an imaginary literal immediately followed by a digit/letter is a unit for XGo
@@ -263,7 +266,7 @@ func main() {
 		bfs(c)
 	}
 	job.Run(c)
-	c.Rule = fmt.Sprintf("(B) BFS over product states (comment mode, XGo insertSemi, nParen clamp, last lexeme) with every (separator, Go lexeme) action, full token streams and error offsets compared with go/scanner; (E) every string of length 1..%d over %q and 1..%d over %q. Inputs where go/scanner sees a number immediately followed by an identifier/keyword, or c/C/py immediately followed by a string (XGo-specific prefixes) are excluded and counted", nNum, string(numAlpha), nStr, string(strAlpha))
+	c.Rule = fmt.Sprintf("(B) BFS over product states (comment mode, XGo insertSemi, nParen clamp, last lexeme) with every (separator, Go lexeme) action, full token streams and error offsets compared with go/scanner; (E) every string of length 1..%d over %q and 1..%d over %q. Inputs where go/scanner sees a number immediately followed by an identifier/keyword, c/C/py immediately followed by a string (XGo-specific prefixes), or an illegal character (not a Go lexeme) are excluded and counted", nNum, string(numAlpha), nStr, string(strAlpha))
 	c.Assumptions = []string{"go/scanner of the installed toolchain (go1.23) is the reference", "BFS canonicalisation as in C15; go/scanner's only cross-token state is insertSemi, which is observable through the compared token stream"}
 	c.Finish()
 }
@@ -273,6 +276,16 @@ type st struct {
 	insertSemi bool
 	nParen     int
 	last       int
+	// trail: same-line block comments scanned after a token that left a semicolon pending. The
+	// scanner decides about that semicolon by looking ahead past such comments (findLineEnd), so in
+	// the witness the decision was taken against the end of input; the continuation decides again.
+	// Such a state is therefore the pending state plus the comments, not the state after them.
+	trail string
+}
+
+// inlineBlockComment: a /*...*/ comment without a line break (the only lexemes the scanner looks past).
+func inlineBlockComment(lx string) bool {
+	return strings.HasPrefix(lx, "/*") && strings.HasSuffix(lx, "*/") && len(lx) >= 4 && !strings.Contains(lx, "\n")
 }
 
 func clamp(n int) int {
@@ -292,8 +305,12 @@ func bfs(c *engine.Check) {
 	}
 	seen := map[st]bool{}
 	var queue []node
+	maxTrail := 1
+	if c.Thorough() {
+		maxTrail = 2
+	}
 	for _, cm := range []bool{false, true} {
-		s0 := st{cm, false, 0, -1}
+		s0 := st{cm, false, 0, -1, ""}
 		seen[s0] = true
 		queue = append(queue, node{s0, ""})
 	}
@@ -337,7 +354,18 @@ func bfs(c *engine.Check) {
 				if end == nil {
 					continue
 				}
-				ns := st{nd.s.comments, end.InsertSemi, clamp(end.NParen), li}
+				ns := st{nd.s.comments, end.InsertSemi, clamp(end.NParen), li, ""}
+				if nd.s.insertSemi && inlineBlockComment(lx.Text) && !strings.Contains(sep, "\n") {
+					if strings.Count(nd.s.trail, "\x00") >= maxTrail {
+						continue // the transition was evaluated; longer comment runs are not expanded
+					}
+					sc := sep
+					if sc == "\t" {
+						sc = " "
+					}
+					ns = nd.s
+					ns.trail += sc + lx.Text + "\x00"
+				}
 				if !seen[ns] {
 					seen[ns] = true
 					queue = append(queue, node{ns, src})
